@@ -839,7 +839,7 @@ func main() {
 	rn.child, err = f1util.Start(f1util.Mode{RenameFail: "2+3"}, filepath.Join(root, "child.log"), nil, self, "child")
 	must(err)
 	defer rn.child.Close()
-	nWorlds := f.N(4, 60)
+	nWorlds := f.N(4, 25)
 	for i := 0; i < nWorlds; i++ {
 		rn.runWorld(i, f.N(7, 12), f.N(2, 5))
 	}
